@@ -17,6 +17,8 @@ pub fn api<T>(r: Result<T, Fail>, what: &str) -> Result<T, Outcome> {
     match r {
         Ok(v) => Ok(v),
         Err(Fail::Fuel) => Err(Outcome::Inconclusive("fuel")),
+        Err(f @ Fail::TooManyItems(_)) => Err(Outcome::Violated(vec![Finding::new(&format!("iterator_exceeds_bound_{}", what), f.describe(), "at most len+1 tokens / 2*len+1 analyze entries")])),
+        Err(f @ Fail::NotFused) => Err(Outcome::Violated(vec![Finding::new(&format!("iterator_not_fused_{}", what), f.describe(), "None after the first None")])),
         Err(f) => Err(Outcome::Violated(vec![Finding::new(&format!("panic_{}", what), f.describe(), "the call returns Ok or a classified Err")])),
     }
 }
